@@ -116,7 +116,7 @@ def parse_spec(o):
 
 
 def gen_cases(tier, rng):
-    n = 160 if tier == "quick" else 2000
+    n = 160 if tier == "quick" else 8000
     cases = []
     seeds = [rng.fork("w/%d" % i).next() % (1 << 48) for i in range(n)]
     reqs = [(s, v) for s in seeds for v in (0, 1, 2, 4, 5, 6)]
